@@ -323,3 +323,16 @@ def trace_validate(module, trace_path, wd, name, timeout=1800, heap="4g", extra_
     require(len(done) == 1, "trace spec %s did not consume the whole trace %s" % (module, trace_path))
     mism = [e for e in r["exports"] if isinstance(e, dict) and e.get("ev") == "MISMATCH"]
     return r, done[0], mism
+
+
+def scale_stage(v, wd, prop, sync=False):
+    """The property at SIZE (harness/src/scale.rs): inputs no bounded universe reaches - hundreds of rules in one bucket,
+    dozens of domain= values, hosts with a dozen labels, URLs with a hundred tokens, hundreds of tag switches, lists of
+    a quarter of a million lines.  Expectations are relational (the list engine vs one-rule engines, a long history vs
+    a fresh engine, a list vs the list without its rejected lines) or hold by construction (listed vs unlisted sites)."""
+    rep_path = os.path.join(wd, "report_scale_%s.json" % prop)
+    run_harness(["scale", prop, rep_path], timeout=1800, sync=sync)
+    rep = load_report(rep_path)
+    require(rep["evaluations"] > 0, "scale stage of %s evaluated nothing" % prop)
+    v.add_report(rep, "scale:%s" % prop, traces=0)
+    return rep
